@@ -391,7 +391,7 @@ Proof.
     change (last ((t, l) :: (t', l') :: c) (0%nat, EmptyString)) with (last ((t', l') :: c) (0%nat, EmptyString)). exact Ez.
 Qed.
 
-(* DEADLOCK FREEDOM w.r.t. the mutexes: if every wait-while-holding follows an edge and the edges admit the numbering,
+(* DEADLOCK FREEDOM w.r.t. the mutexes: if every wait-while-holding follows an edge and the edges allow the numbering,
    no set of goroutines waits for each other's mutexes in a cycle (a cycle of length one is a double lock) *)
 Theorem no_lock_cycle st c : follows edges st -> ~ deadlock st c.
 Proof.
